@@ -1,4 +1,6 @@
 import CedarVerif.Cedar.SymCC
+import CedarVerif.Cedar.SymCompile
+import CedarVerif.Lemmas.SymCompile
 import CedarVerif.Thm.C01
 /-
 C18 — Symbolic compilation agrees with evaluation on concrete (literal) environments.
@@ -14,9 +16,28 @@ solver-free shortcut of `check_unsat_asserts`).  GIVEN the compile contract on a
 — each verification condition "holds" (its asserts are unsatisfiable, `checkUnsat = true`) exactly when the
 corresponding statement about the concrete authorizer model `Cedar.isAuthorized` (Authorizer.lean, C01) is true.
 
-NOT PROVED, NOT MODELLED: that the Rust compiler `Expr → Term` and the term factory's constant folding actually meet
-that contract.  That is ≈ 15 kLoC of Rust; it is *sampled* by the differential run of `./check C18`
-(harness/src/c18.rs: real `SymEnv::from_concrete_env`, both compilers, the real evaluator and authorizer).
+PROVED HERE FOR A FIRST FRAGMENT OF THE COMPILER (`Cedar.SymC`, Cedar/SymCompile.lean; mirrors symcc/compiler.rs
+`compile_prim/var/app1/app2/if/and/or` + `compile`, symcc/factory.rs `not and or eq ite bv* option_get is_none if_false
+if_some`, with `App` nodes and every non-literal branch kept): expressions `SFrag` = bool / long / string / entity
+literals, `principal action resource`, `! - && || if == < <= + - *`.
+  * `compile_correct_fragment`: if the compiler ACCEPTS `e ∈ SFrag` on the literal environment of `req`, the term it
+    builds is the folded literal `some (lit v)` / `none` exactly as `evaluate` gives `v` / errors (overflow → `none`).
+  * ill-typed inputs: the compiler either REJECTS (`CompileError::TypeError`; e.g. `1 + true`, `true && 1`,
+    `(MAX + 1) + true` — although evaluate reports the overflow first) or accepts and folds because a constant guard /
+    short-circuit drops the ill-typed part (`false && (1 + true)` ↦ `some false`, `1 == "a"` ↦ `some false`,
+    `if 1 < 2 then 1 else true` ↦ `some 1`); an entity literal outside the schema's types / enum members is rejected
+    although evaluate succeeds.  These are `example`s; NO theorem characterises when the compiler rejects, and
+    "a fragment expression never yields the model-only error `.outside`" is not proved either (checked by the
+    differential run only: the driver would print `(outside-model)`).
+  * `compilePolicy_discharged`, `vc_skeleton_correct_fragment`: for policies whose conditions are in `SFrag`, the
+    compile contract (`compilePolicy`) is what the modelled compiler produces, so `vc_skeleton_correct` holds with the
+    enforcer assumption `hEnf` as the only hypothesis.
+
+STILL NOT PROVED, NOT MODELLED: the compiler outside `SFrag` (context, attributes, `has`, `in`, tags, sets, records,
+`like`, `is`, extension functions), symccopt/compiler.rs' footprint, the symbolizer (`SymEnv::from_concrete_env`) and
+the enforcer.  There the contract is *sampled* by the differential run of `./check C18` (harness/src/c18.rs: real
+`SymEnv::from_concrete_env`, both compilers, the real evaluator and authorizer); the fragment itself is additionally
+checked line by line against the Rust compiler by stream `c18symc`.
 -/
 namespace Cedar.C18
 open Cedar Cedar.SymCC
@@ -382,5 +403,185 @@ example : pairVCsOpt [true] (compilePolicies exReq exEs [pTrue]) (compilePolicie
 example : checkUnsat (verifyNeverErrors [false] none) = true := by decide
 
 end Examples
+
+/-! ### the compiler fragment (Cedar/SymCompile.lean): the compile contract PROVED on `SFrag` -/
+
+section Fragment
+open Cedar.SymC
+
+/-- C18 on the fragment: whenever the compiler accepts a fragment expression on the literal environment of `req`
+    (entity-type table `etys` arbitrary), the term it builds is ALREADY the folded literal: `some (lit v)` when
+    `evaluate` gives `v` (a primitive), `none` (of some type) when `evaluate` errors (overflow or type error).
+    The store is irrelevant on this fragment.  Ill-typed inputs: see `rejections` below — a type error of `evaluate`
+    shows up either as the compiler REJECTING (`.error .typeError`, excluded here by `hc`) or, when it accepts, as `none`
+    — never as a `some`. -/
+theorem compile_correct_fragment (req : Request) (es : Entities) (senv : SlotEnv)
+    (etys : List (EntityType × Option (List String))) (e : Expr) (hf : SFrag e) (t : Term)
+    (hc : compile (litEnv req etys) e = .ok t) :
+    match evaluate req es senv e with
+    | .ok v => ∃ p, v = .prim p ∧ t = .some (.prim (litPrim p))
+    | .error _ => ∃ ty, t = .none ty := by
+  have h := compile_rel req es senv etys hf t hc
+  rcases h.cases with ⟨p, hev, _, rfl⟩ | ⟨err, ty, hev, rfl⟩
+  · rw [hev]; exact ⟨p, rfl, rfl⟩
+  · rw [hev]; exact ⟨ty, rfl⟩
+
+/-- `CompiledPolicy::compile_with_custom_symenv` restricted to what the skeleton reads: the compiled condition must be a
+    term of type `option bool` (compiler.rs' postcondition for a boolean condition) and is read as a constant -/
+def compilePolicyReal (env : SymEnvLit) (p : Policy) : Option CPolicy :=
+  match compile env p.condition with
+  | .ok t =>
+    if t.typeOf = .option .bool then
+      match optBoolOf t with
+      | some b => some { effect := compileEffect p.effect, term := b }
+      | none => none
+    else none
+  | .error _ => none
+
+def compilePoliciesReal (env : SymEnvLit) : List Policy → Option CPolicies
+  | [] => some []
+  | p :: ps =>
+    match compilePolicyReal env p, compilePoliciesReal env ps with
+    | some c, some cs => some (c :: cs)
+    | _, _ => none
+
+/-- the compile contract (`compilePolicy`, so far a hypothesis-as-data) is what the modelled compiler produces -/
+theorem compilePolicy_discharged (req : Request) (es : Entities) (etys : List (EntityType × Option (List String)))
+    (p : Policy) (hf : SFrag p.condition) (c : CPolicy)
+    (h : compilePolicyReal (litEnv req etys) p = some c) : c = compilePolicy req es p := by
+  unfold compilePolicyReal at h
+  cases hc : compile (litEnv req etys) p.condition with
+  | error e => simp [hc] at h
+  | ok t =>
+    simp only [hc] at h
+    split at h
+    · rename_i hty
+      have hr := compile_rel req es p.env etys hf t hc
+      rcases hr.cases with ⟨q, hev, _, rfl⟩ | ⟨err, ty, hev, rfl⟩
+      · obtain ⟨b, rfl⟩ := litPrim_typeOf_bool (p := q) (by simpa [Term.typeOf] using hty)
+        simp only [optBoolOf, litPrim, Option.some.injEq] at h
+        subst h
+        unfold compilePolicy Policy.outcome
+        rw [hev]
+        cases b <;> simp [Value.asBool, compileOutcome]
+      · simp only [optBoolOf, Option.some.injEq] at h
+        subst h
+        unfold compilePolicy Policy.outcome
+        rw [hev]
+        simp [compileOutcome]
+    · simp at h
+
+theorem compilePolicies_discharged (req : Request) (es : Entities) (etys : List (EntityType × Option (List String)))
+    (ps : List Policy) (hf : ∀ q, q ∈ ps → SFrag q.condition) (cs : CPolicies)
+    (h : compilePoliciesReal (litEnv req etys) ps = some cs) : cs = compilePolicies req es ps := by
+  induction ps generalizing cs with
+  | nil => simp [compilePoliciesReal] at h; subst h; rfl
+  | cons p ps ih =>
+    unfold compilePoliciesReal at h
+    cases h1 : compilePolicyReal (litEnv req etys) p with
+    | none => simp [h1] at h
+    | some c =>
+      cases h2 : compilePoliciesReal (litEnv req etys) ps with
+      | none => simp [h1, h2] at h
+      | some cs' =>
+        simp only [h1, h2, Option.some.injEq] at h
+        subst h
+        rw [compilePolicy_discharged req es etys p (hf p (by simp)) c h1,
+          ih (fun q hq => hf q (by simp [hq])) cs' h2]
+        rfl
+
+/-- C18 on the fragment, WITHOUT the compile contract as a hypothesis: for policies whose conditions are in `SFrag`,
+    the constants of every verification condition, computed from the terms the MODELLED compiler and factory produce on
+    the literal environment, state exactly what the concrete authorizer model does.  Remaining assumption: the
+    enforcer's assumptions fold to `true` (`hEnf`; the enforcer is not modelled). -/
+theorem vc_skeleton_correct_fragment (etys : List (EntityType × Option (List String)))
+    (enf : Asserts) (hEnf : EnfTrue enf) (p : Policy) (ps₁ ps₂ : List Policy)
+    (hp : SFrag p.condition) (h₁ : ∀ q, q ∈ ps₁ → SFrag q.condition) (h₂ : ∀ q, q ∈ ps₂ → SFrag q.condition)
+    (c : CPolicy) (c₁ c₂ : CPolicies)
+    (hc : compilePolicyReal (litEnv req etys) p = some c)
+    (hc₁ : compilePoliciesReal (litEnv req etys) ps₁ = some c₁)
+    (hc₂ : compilePoliciesReal (litEnv req etys) ps₂ = some c₂) :
+    let d₁ := (Cedar.isAuthorized req es ps₁).decision
+    let d₂ := (Cedar.isAuthorized req es ps₂).decision
+    ((policyVCs enf c).neverErrors = false ↔ Errs req es p) ∧
+    ((policyVCs enf c).alwaysMatches = true ↔ Sat req es p) ∧
+    ((policyVCs enf c).neverMatches = true ↔ ¬ Sat req es p) ∧
+    ((setVCs enf c₁).alwaysAllows = true ↔ d₁ = .allow) ∧
+    ((setVCs enf c₁).alwaysDenies = true ↔ d₁ = .deny) ∧
+    ((pairVCs enf c₁ c₂).implies = true ↔ (d₁ = .allow → d₂ = .allow)) ∧
+    ((pairVCs enf c₁ c₂).equivalent = true ↔ d₁ = d₂) ∧
+    ((pairVCs enf c₁ c₂).disjoint = true ↔ ¬ (d₁ = .allow ∧ d₂ = .allow)) ∧
+    (policyVCsOpt enf c = policyVCs enf c ∧ setVCsOpt enf c₁ = setVCs enf c₁ ∧ pairVCsOpt enf c₁ c₂ = pairVCs enf c₁ c₂) := by
+  rw [compilePolicy_discharged req es etys p hp c hc, compilePolicies_discharged req es etys ps₁ h₁ c₁ hc₁,
+    compilePolicies_discharged req es etys ps₂ h₂ c₂ hc₂]
+  exact vc_skeleton_correct req es enf hEnf p ps₁ ps₂
+
+end Fragment
+
+/-! ### non-vacuity of the fragment theorems -/
+
+section FragmentExamples
+open Cedar.SymC
+
+instance decEqCResult : DecidableEq CResult := fun a b =>
+  match a, b with
+  | .ok x, .ok y => if h : x = y then isTrue (by rw [h]) else isFalse (fun h' => h (by injection h'))
+  | .error x, .error y => if h : x = y then isTrue (by rw [h]) else isFalse (fun h' => h (by injection h'))
+  | .ok _, .error _ => isFalse (fun h => by cases h)
+  | .error _, .ok _ => isFalse (fun h => by cases h)
+
+def exEtys : List (EntityType × Option (List String)) := [("User", none), ("Doc", none), ("Action", some ["view"])]
+
+/-- `if principal == User::"a" then 1 + 2 < 4 else !(true && false)` -/
+def exIf : Expr :=
+  .ite (.binaryApp .eq (.var .principal) (.lit (.entityUID ⟨"User", "a"⟩)))
+    (.binaryApp .less (.binaryApp .add (.lit (.int 1)) (.lit (.int 2))) (.lit (.int 4)))
+    (.unaryApp .not (.and (.lit (.bool true)) (.lit (.bool false))))
+
+/-- `9223372036854775807 + 1 == 0` -/
+def exOvf : Expr := .binaryApp .eq (.binaryApp .add (.lit (.int 9223372036854775807)) (.lit (.int 1))) (.lit (.int 0))
+
+example : SFrag exIf := inFrag_sound _ (by decide +kernel)
+example : SFrag exOvf := inFrag_sound _ (by decide +kernel)
+example : compile (litEnv exReq exEtys) exIf = .ok (.some (.prim (.bool true))) := by decide +kernel
+example : compile (litEnv exReq exEtys) exOvf = .ok (.none .bool) := by decide +kernel
+example : compile (litEnv { exReq with principal := ⟨"User", "b"⟩ } exEtys) exIf = .ok (.some (.prim (.bool true))) := by
+  decide +kernel
+
+-- rejections (ill-typed inputs), exactly as compiler.rs decides them:
+-- `1 + true`: rejected (evaluate: type error)
+example : compile (litEnv exReq exEtys) (.binaryApp .add (.lit (.int 1)) (.lit (.bool true))) = .error .typeError := by
+  decide +kernel
+-- `false && (1 + true)`: ACCEPTED, `some false` (the right operand's error is never inspected; evaluate: false)
+example : compile (litEnv exReq exEtys) (.and (.lit (.bool false)) (.binaryApp .add (.lit (.int 1)) (.lit (.bool true))))
+    = .ok (.some (.prim (.bool false))) := by decide +kernel
+-- `true && 1`: rejected (evaluate: type error)
+example : compile (litEnv exReq exEtys) (.and (.lit (.bool true)) (.lit (.int 1))) = .error .typeError := by decide +kernel
+-- `(9223372036854775807 + 1) + true`: rejected although evaluate errors with overflow before the type error
+example : compile (litEnv exReq exEtys)
+    (.binaryApp .add (.binaryApp .add (.lit (.int 9223372036854775807)) (.lit (.int 1))) (.lit (.bool true)))
+    = .error .typeError := by decide +kernel
+-- `1 == "a"`: ACCEPTED, `some false` (both types primitive; evaluate: false)
+example : compile (litEnv exReq exEtys) (.binaryApp .eq (.lit (.int 1)) (.lit (.string "a")))
+    = .ok (.some (.prim (.bool false))) := by decide +kernel
+-- `if 1 < 2 then 1 else true`: ACCEPTED, `some 1` (the guard folds to a constant, the other branch is dropped)
+example : compile (litEnv exReq exEtys)
+    (.ite (.binaryApp .less (.lit (.int 1)) (.lit (.int 2))) (.lit (.int 1)) (.lit (.bool true)))
+    = .ok (.some (.prim (.bitvec 1))) := by decide +kernel
+-- an entity literal of a type outside the schema / outside an enumerated type: rejected, although evaluate succeeds
+example : compile (litEnv exReq exEtys) (.lit (.entityUID ⟨"Ghost", "x"⟩)) = .error .typeError := by decide +kernel
+example : compile (litEnv exReq exEtys) (.lit (.entityUID ⟨"Action", "edit"⟩)) = .error .typeError := by decide +kernel
+
+/-- permit when exIf;  forbid when exOvf (errors) -/
+def pIf : Policy := { id := "q0", effect := .permit, condition := exIf, env := [] }
+def pOvf : Policy := { id := "q1", effect := .forbid, condition := exOvf, env := [] }
+
+example : compilePolicyReal (litEnv exReq exEtys) pIf = some { effect := .permit, term := some true } := by decide +kernel
+example : compilePolicyReal (litEnv exReq exEtys) pOvf = some { effect := .forbid, term := none } := by decide +kernel
+example : compilePoliciesReal (litEnv exReq exEtys) [pIf, pOvf]
+    = some [{ effect := .permit, term := some true }, { effect := .forbid, term := none }] := by decide +kernel
+example : pOvf.outcome exReq exEs = .err := by decide +kernel
+
+end FragmentExamples
 
 end Cedar.C18
